@@ -276,6 +276,20 @@ func (d *drv) invalidParams(id int, tier string) params {
 				}
 			}
 		}
+	case 28: // the same key in two keystores of the split-keys directory (refused since c6adf89)
+		p.split, p.sdir, p.dupk, p.gap = true, true, true, false
+		if flags {
+			p.nk, p.v = 2+r.Intn(2), 0
+			p.fa, p.wa = 1, 1
+			if r.Chance(1, 3) {
+				p.wa = p.nk
+			}
+		} else {
+			if p.v < 2 {
+				p.v, p.addrs = 2, 2
+			}
+			p.nk = p.v
+		}
 	default:
 		if !flags {
 			p.v, p.addrs = 0, 0
